@@ -85,10 +85,16 @@ Apart(h1, h2) ==
 RECURSIVE Steps(_, _)
 Steps(n, k) == IF k > n THEN <<>> ELSE << <<n - k + 1, k>>, <<n - k, k>> >> \o Steps(n, k + 1)
 StairPath(n) == << <<0, 0>>, <<n, 0>> >> \o Steps(n, 1)
+\* a second parametric family with SMALL coordinates and many vertices (the staircase's moments overflow 32 bits beyond n = 300):
+\* the rectangle W x 5 with a vertex at every integer x of its top side, W + 4 coordinates; in BigN as 100000 + W
+RECURSIVE TopSide(_)
+TopSide(x) == IF x < 0 THEN <<>> ELSE << <<x, 5>> >> \o TopSide(x - 1)
+LongRectPath(w) == << <<0, 0>>, <<w, 0>> >> \o TopSide(w)
+BigPath(n) == IF n >= 100000 THEN LongRectPath(n - 100000) ELSE StairPath(n)
 UnitHole(x, y) == << <<x, y>>, <<x + 1, y>>, <<x + 1, y + 1>>, <<x, y + 1>> >>
 
 Init == \/ /\ path \in {<<p>> : p \in Grid} /\ phase = "open" /\ hole = <<>>
-        \/ /\ path \in {StairPath(n) : n \in BigN} /\ phase = "big" /\ hole = <<>>
+        \/ /\ path \in {BigPath(n) : n \in BigN} /\ phase = "big" /\ hole = <<>>
 
 RECURSIVE SumOver(_, _, _)
 SumOver(Op(_), hs, i) == IF i > Len(hs) THEN 0 ELSE Op(RingOf(hs[i])) + SumOver(Op, hs, i + 1)
@@ -142,6 +148,9 @@ Spec == Init /\ [][Next]_vars
 
 \* sanity of the generator itself: an emitted shell is a simple ring with positive area
 ShellOK == /\ phase # "open" => Area2(RingOf(path)) > 0 /\ Len(path) >= 3
-           /\ phase \in {"big", "bigdone"} => /\ 2 * Area2(RingOf(path)) = 2 * ((Len(path) - 2) \div 2) * (((Len(path) - 2) \div 2) + 1)
+           \* closed forms of the two parametric families: staircase n (n + 1) / 2 ... , long rectangle 5 W
+           /\ phase \in {"big", "bigdone"} => /\ IF path[3][2] = 5 /\ path[2][2] = 0 /\ Len(path) >= 6 /\ path[Len(path)] = <<0, 5>>
+                                                 THEN Area2(RingOf(path)) = 10 * path[2][1]
+                                                 ELSE 2 * Area2(RingOf(path)) = 2 * ((Len(path) - 2) \div 2) * (((Len(path) - 2) \div 2) + 1)
                                               /\ StrictlyInside(UnitHole(1, 1), RingOf(path)) /\ StrictlyInside(UnitHole(1, 3), RingOf(path))
 =============================================================================
